@@ -29,7 +29,7 @@ var profC01 = &hist.Profile{
 	Name: "C01", MinOps: 10, MaxOps: 40, Topics: 3, Subs: 4,
 	W: map[string]int{
 		hist.OpPublish: 18, hist.OpPull: 20, hist.OpAck: 9, hist.OpModAck: 5, hist.OpNack: 4, hist.OpStreamAck: 1, hist.OpAdvance: 16,
-		hist.OpSeekTime: 3, hist.OpSnapshot: 1, hist.OpSeekSnap: 1, hist.OpJob: 5, hist.OpSweep: 3, hist.OpExpireSubs: 1,
+		hist.OpSeekTime: 3, hist.OpSnapshot: 3, hist.OpSeekSnap: 3, hist.OpJob: 5, hist.OpSweep: 3, hist.OpExpireSubs: 1, hist.OpStream: 2,
 		hist.OpCreateSub: 6, hist.OpDeleteSub: 2, hist.OpCreateTopic: 2, hist.OpDeleteTopic: 1, hist.OpUpdateSub: 2, hist.OpGetSub: 1,
 	},
 	Ordered: 30, Keys: []string{"", "", "K1", "K2"}, Filters: hist.DefaultFilters,
@@ -60,7 +60,7 @@ var profC02 = &hist.Profile{
 	Name: "C02", MinOps: 10, MaxOps: 40, Topics: 3, Subs: 5,
 	W: map[string]int{
 		hist.OpPublish: 22, hist.OpPull: 24, hist.OpAck: 9, hist.OpModAck: 4, hist.OpNack: 3, hist.OpAdvance: 12,
-		hist.OpSeekTime: 3, hist.OpSweep: 2, hist.OpJob: 2,
+		hist.OpSeekTime: 3, hist.OpSweep: 2, hist.OpJob: 2, hist.OpSnapshot: 5, hist.OpSeekSnap: 6, hist.OpStream: 2,
 		hist.OpCreateSub: 9, hist.OpDeleteSub: 2, hist.OpCreateTopic: 2, hist.OpDeleteTopic: 1, hist.OpUpdateSub: 3,
 	},
 	Ordered: 20, Keys: []string{"", "", "K1", "ключ", "k 2"}, Filters: hist.DefaultFilters,
@@ -96,7 +96,7 @@ var profC03 = &hist.Profile{
 	Name: "C03", MinOps: 10, MaxOps: 40, Topics: 2, Subs: 3,
 	W: map[string]int{
 		hist.OpPublish: 14, hist.OpPull: 22, hist.OpAck: 18, hist.OpStreamAck: 4, hist.OpModAck: 10, hist.OpNack: 8, hist.OpAdvance: 16,
-		hist.OpSweep: 3, hist.OpCreateSub: 4, hist.OpDeleteSub: 1, hist.OpJob: 1,
+		hist.OpSweep: 3, hist.OpCreateSub: 4, hist.OpDeleteSub: 1, hist.OpJob: 1, hist.OpStream: 6,
 	},
 	Ordered: 30, Keys: []string{"", "K1", "K2"}, Filters: hist.DefaultFilters,
 	DLPercent: 30, Attempts: []int{1, 2, 3}, Retry: 60,
@@ -233,7 +233,8 @@ func TestC13(t *testing.T) {
 var profC14 = &hist.Profile{
 	Name: "C14", MinOps: 10, MaxOps: 35, Topics: 2, Subs: 4,
 	W: map[string]int{
-		hist.OpPublish: 16, hist.OpPull: 24, hist.OpAck: 6, hist.OpAdvance: 28, hist.OpExpireSubs: 8, hist.OpSeekTime: 3, hist.OpSetDelay: 5,
+		hist.OpPublish: 16, hist.OpPull: 24, hist.OpAck: 8, hist.OpAdvance: 28, hist.OpExpireSubs: 8, hist.OpSeekTime: 4, hist.OpSetDelay: 5,
+		hist.OpSnapshot: 3, hist.OpSeekSnap: 4,
 		hist.OpCreateSub: 6, hist.OpUpdateSub: 3, hist.OpGetSub: 2, hist.OpJob: 2,
 	},
 	Filters: []string{"", "", `attributes:x`}, Retry: 50,
